@@ -219,9 +219,9 @@ PLANS["C19"] = [
     stage("asan", "C19", env=ASAN_ENV, cases={"quick": 20000, "thorough": 300000}),
     stage("miri", "C19M"),
     # "concurrent use as in C18": lifetime-extended borrows under schedules
-    stage("asan", "C18", env=ASAN_ENV, cases={"quick": 480, "thorough": 8000}),
-    stage("asan", "C18S", env=ASAN_ENV, cases={"quick": 480, "thorough": 8000}),
-    stage("miri", "C18M", cases={"quick": 64, "thorough": 1600}),
+    stage("asan", "C18", env=dict(ASAN_ENV, RSV_MEMORY_ONLY="1"), cases={"quick": 480, "thorough": 8000}),
+    stage("asan", "C18S", env=dict(ASAN_ENV, RSV_MEMORY_ONLY="1"), cases={"quick": 480, "thorough": 8000}),
+    stage("miri", "C18M", env={"RSV_MEMORY_ONLY": "1"}, cases={"quick": 64, "thorough": 1600}),
 ]
 for _p in ("C01", "C02", "C03", "C04", "C05", "C06", "C07", "C08", "C09", "C10", "C11", "C12", "C13", "C14", "C15", "C16", "C20"):
     PLANS[_p] = [stage("dbg", _p)]
@@ -261,6 +261,8 @@ def run_worker_stage(binary, st, prop, tier, seed, outdir):
         if st["profile"] == "miri":
             # a different scheduler seed per shard and VERIF_SEED: more thread interleavings
             env["MIRIFLAGS"] = env.get("MIRIFLAGS", "") + f" -Zmiri-seed={seed * 100 + i} -Zmiri-preemption-rate=0.05"
+            for k in st.get("env", {}):
+                env["MIRIFLAGS"] += f" -Zmiri-env-forward={k}"
         cwd = HARNESS if st["profile"] == "miri" else None
         for attempt in range(6):
             for f in (out, prog):
